@@ -32,6 +32,9 @@ class Cond:
     def make(expr, rel):
         """expr rel 0 ; constant-folds to Python bool"""
         expr = nf.simplify(expr)
+        if nf.has_fn(expr, "sg"):
+            # a stop-gradient ghost (value produced under no_grad / detach) is the identity on VALUES: a comparison sees through it
+            expr = nf.simplify(nf.unwrap(expr, "sg"))
         if expr.is_const():
             v = expr.const_value()
             return {"<": v < 0, "<=": v <= 0, "==": v == 0, "!=": v != 0}[rel]
